@@ -1,9 +1,11 @@
 (** * C13 — Event-time windows never lose, duplicate or mix elements; fire on watermarks
-    Statements only; proofs in Proofs/WinEventProofs.v (per-key manager) and
+    Statements only; proofs in Proofs/WinEventProofs.v (per-key manager),
+    Proofs/WinEventCover.v (coverage for every arrival order outside the known class F4) and
     Proofs/WindowOpProofs.v (keyed lifting, shared with C12). Model: Model/WinEvent.v
     (`EventTimeWindowManager`, `TransactionWindowManager`). *)
 From Noir Require Import Base.Elem Model.WinCount Model.WindowOp Model.WinEvent
-  Proofs.WinCountSpec Proofs.WinEventSpec Proofs.WinEventProofs Proofs.WindowOpProofs.
+  Proofs.WinCountSpec Proofs.WinEventSpec Proofs.WinEventProofs Proofs.WinEventCover
+  Proofs.WindowOpProofs.
 Open Scope Z_scope.
 
 Section C13.
@@ -60,9 +62,76 @@ Section C13.
   (** Full statement: "every element that is not late is assigned to exactly one result
       (tumbling) / at least one (sliding), independently of arrival order". It is FALSE of
       the faithful model and of the implementation (known finding F4, [C13_refuted] below):
-      an element older than every slot of its key is dropped although it is not late.
-      Proved form (partial): for arrivals in timestamp order with non-decreasing watermarks.
-      What is missing: out-of-order arrivals that stay above the key's oldest open slot. *)
+      an element older than the oldest pending slot of its key is dropped although it is not
+      late.
+
+      Proved form: the full statement for EVERY in-contract arrival order (no [ts_sorted], no
+      [wm_sorted]) with exactly that class excluded, in the shape
+      "forall input, forall element outside the known class, P".
+      The class is executable: [dropped_at s ts] = the manager, in state [s], holds at least
+      one slot and [ts] is below the start of its first (oldest) slot;
+      [dropped_indices l] = the positions in [tdata l] of the elements that arrive in such a
+      state during the run of [l]; [kept_data l] = the elements at the other positions.
+      - [C13_known_class_characterised]: in any reachable state an in-contract element is fed
+        to at least one slot iff [dropped_at] is false, and to none iff it is true;
+      - [C13_tumbling_exactly_once_outside_known_class]: the results of a tumbling round
+        partition exactly the elements outside the class (each exactly once, nothing else);
+      - [C13_sliding_cover_outside_known_class]: a position is in no result iff it is in the
+        class; every other position is in 1..ceil(size/slide) results;
+      - [C13_inorder_nothing_dropped]: for arrivals in timestamp order with non-decreasing
+        watermarks the class is empty, so the two [*_inorder_partial] theorems below are
+        corollaries (Proofs/WinEventCover.v, [et_*_inorder']).
+      No second class of lost elements exists: the slot list never has gaps (each slot starts
+      no later than the end of its predecessor, [et_cinv]), also across the windows that
+      `alloc_windows` skips below the watermark and under regressing watermarks; the loss
+      under a regressing watermark ([et_cover_needs_monotone_watermarks]) is an instance of
+      the same class ([dropped_wm_regress]).
+      What is missing: nothing for the per-key manager outside F4; [no_end l] is not used by
+      the proofs (kept for the one-round reading of [tdata l]). *)
+  Theorem C13_known_class_characterised : forall (l : list (elem A)) (s : estate) (x : A) (ts : Z),
+    in_contract None l ->
+    fst (run_from (EM acc0 proc out size slide) (minit (EM acc0 proc out size slide)) l) = Some s ->
+    (forall w, e_lw s = Some w -> w < ts) ->
+    fst (et_step acc0 proc out size slide (Some s) (Tst x ts)) =
+      Some {| e_lw := e_lw s; e_ws := map (feed1 proc x ts) (alloc_of acc0 size slide s ts) |} /\
+    (dropped_at s ts = false <->
+       Exists (fun sl => e_start sl <= ts < e_end sl) (alloc_of acc0 size slide s ts)) /\
+    (dropped_at s ts = true <->
+       Forall (fun sl => hit ts sl = false) (alloc_of acc0 size slide s ts)).
+  Proof. exact (dropped_at_spec acc0 proc out size slide Hslide Hss). Qed.
+
+  Theorem C13_tumbling_exactly_once_outside_known_class : forall l : list (elem A),
+    slide = size -> no_end l -> in_contract None l ->
+    exists groups : list (list (A * Z) * Z),
+      run (EM acc0 proc out size slide) (l ++ [FAR])
+      = map (fun ge => eres_of acc0 proc out (fst ge) (snd ge)) groups /\
+      Forall (fun ge => in_interval size (fst ge) (snd ge)) groups /\
+      Permutation (concat (map fst groups)) (kept_data acc0 proc out size slide l).
+  Proof.
+    exact (fun l Heq _ =>
+             et_tumbling_exactly_once_outside_class acc0 proc out size slide Hslide Hss l Heq).
+  Qed.
+
+  Theorem C13_sliding_cover_outside_known_class : forall l : list (elem A),
+    no_end l -> in_contract None l ->
+    exists idxs : list (list nat * Z),
+      run (EM acc0 proc out size slide) (l ++ [FAR])
+      = map (fun ie => eres_of acc0 proc out (pick (tdata l) (fst ie)) (snd ie)) idxs /\
+      Forall (group_ok size l) idxs /\
+      forall i, (i < length (tdata l))%nat ->
+        (In i (dropped_indices acc0 proc out size slide l) -> cnt i (map fst idxs) = 0%nat) /\
+        (~ In i (dropped_indices acc0 proc out size slide l) ->
+           (1 <= cnt i (map fst idxs))%nat /\
+           Z.of_nat (cnt i (map fst idxs)) <= (size + slide - 1) / slide).
+  Proof.
+    exact (fun l _ => et_sliding_cover_outside_class acc0 proc out size slide Hslide Hss l).
+  Qed.
+
+  Theorem C13_inorder_nothing_dropped : forall l : list (elem A),
+    in_contract None l -> wm_sorted None l -> ts_sorted None l ->
+    dropped_indices acc0 proc out size slide l = [].
+  Proof. exact (et_inorder_nothing_dropped acc0 proc out size slide Hslide Hss). Qed.
+
   Theorem C13_tumbling_exactly_once_inorder_partial : forall l : list (elem A),
     slide = size -> no_end l -> in_contract None l -> wm_sorted None l -> ts_sorted None l ->
     exists groups : list (list (A * Z) * Z),
@@ -97,6 +166,21 @@ Theorem C13_refuted :
   = [([1], Some 20)].
 Proof. vm_compute. reflexivity. Qed.
 
+(** the same witness is in the known class (position 1 = the element with timestamp 5) *)
+Example C13_refuted_in_known_class :
+  dropped_indices ([] : list Z) (fun b x => b ++ [x]) (fun b => b) 10 10
+    [Tst 1 10; Tst 2 5; Wm 30; FAR] = [1%nat].
+Proof. vm_compute. reflexivity. Qed.
+
+(** an out-of-order element that is not below the oldest slot is outside the class and is
+    covered (element 3, timestamp 12, arrives after timestamp 25) *)
+Example C13_out_of_order_covered :
+  dropped_indices ([] : list Z) (fun b x => b ++ [x]) (fun b => b) 10 10
+    [Tst 1 10; Tst 2 25; Tst 3 12; Wm 40; FAR] = [] /\
+  run (EM ([] : list Z) (fun b x => b ++ [x]) (fun b => b) 10 10)
+    [Tst 1 10; Tst 2 25; Tst 3 12; Wm 40; FAR] = [([1; 3], Some 20); ([2], Some 30)].
+Proof. split; vm_compute; reflexivity. Qed.
+
 Example C13_example_tumbling :
   run (EM ([] : list Z) (fun b x => b ++ [x]) (fun b => b) 10 10)
       [Tst 1 0; Tst 2 5; Wm 10; Tst 3 12; Wm 20; FAR]
@@ -108,4 +192,8 @@ Print Assumptions C13_fire_on_watermark.
 Print Assumptions C13_at_most_ceil.
 Print Assumptions C13_tumbling_exactly_once_inorder_partial.
 Print Assumptions C13_sliding_cover_inorder_partial.
+Print Assumptions C13_known_class_characterised.
+Print Assumptions C13_tumbling_exactly_once_outside_known_class.
+Print Assumptions C13_sliding_cover_outside_known_class.
+Print Assumptions C13_inorder_nothing_dropped.
 Print Assumptions C13_transaction_commits.
